@@ -209,6 +209,14 @@ struct Shadow {
     sig_rev: BTreeMap<Vec<u8>, (u64, u64)>,
     /// challenges the node issued per connection, oldest first (value ids)
     issued: BTreeMap<u64, Vec<u64>>,
+    /// the challenge outstanding on each connection in the sense of the property: the last one the
+    /// node put on the wire for it since the connection was (re)opened, not yet accepted; a
+    /// connection that is closed (by the peer, by the node, or re-dialled) has none
+    outstanding: BTreeMap<u64, u64>,
+    /// a challenge that was outstanding on an entry when the entry's connection was re-opened
+    /// (handle_new_peer) WITHOUT a disconnect in between or after its issuance: by the property it
+    /// belongs to the previous connection; the code keeps it on a static entry (listed finding)
+    soft_stale: BTreeMap<u64, u64>,
     /// challenges on which a handshake was accepted
     accepted: BTreeSet<u64>,
     /// response messages delivered so far: (bytes, model term)
@@ -618,6 +626,20 @@ impl<'a> Ctx<'a> {
             return true;
         }
 
+        match &real {
+            Real::New(c) => {
+                if let Some(ch) = self.sh.outstanding.remove(c) {
+                    self.sh.soft_stale.insert(*c, ch);
+                }
+            }
+            Real::Disc(c, _) => {
+                self.sh.outstanding.remove(c);
+                self.sh.soft_stale.remove(c);
+            }
+            _ => {}
+        }
+        let outstanding_before: BTreeMap<u64, u64> = self.sh.outstanding.clone();
+        let stale_before: BTreeMap<u64, u64> = self.sh.soft_stale.clone();
         // ---- run the real code ----
         {
             let mut d = self.sut.disk.lock().unwrap();
@@ -652,9 +674,7 @@ impl<'a> Ctx<'a> {
                 "?".to_string()
             };
             self.panicked = true;
-            let site = if msg.contains("different public key") {
-                1
-            } else if msg.contains("Old peer should not be already connected") {
+            let site = if msg.contains("Old peer should not be already connected") {
                 2
             } else if msg.contains("peer should exist here") {
                 3
@@ -665,27 +685,9 @@ impl<'a> Ctx<'a> {
                 *a = a.replace("@PREF@", "0");
             }
             self.expected.push(vec![vec![999, site]]);
-            // the only listed panic: a correctly signed, compatible response under a key
-            // that differs from the key already recorded for this peer entry
-            let mut listed = false;
-            if site == 1 {
-                if let Some((c, r)) = &resp_info {
-                    let had = self.sh.prev_peers.iter().find(|p| p.idx == *c).and_then(|p| p.pk);
-                    let k = self.keys.id(&r.public_key);
-                    if had.is_some() && had != Some(k) {
-                        listed = true;
-                        self.known.push((
-                            "assert-key-changed-panic".to_string(),
-                            format!("step {} ({}): panic `{}`; peer entry {} had key {:?}, response is validly signed by key {}",
-                                self.expected.len() - 1, act.label(), msg, c, had, k),
-                        ));
-                        self.tags.insert("panic-key-changed");
-                    }
-                }
-            }
-            if !listed {
-                self.failures.push(format!("step {} ({}) panicked: {}", self.expected.len() - 1, act.label(), msg));
-            }
+            // no panic is listed any more (the key-change assert was fixed in ae2aeaa)
+            let _ = &resp_info;
+            self.failures.push(format!("step {} ({}) panicked: {}", self.expected.len() - 1, act.label(), msg));
             return false;
         }
 
@@ -700,6 +702,8 @@ impl<'a> Ctx<'a> {
                 Ok(Message::HandshakeChallenge(ch)) => {
                     let id = self.sh.intern(&ch.challenge);
                     self.sh.issued.entry(*c).or_default().push(id);
+                    self.sh.outstanding.insert(*c, id);
+                    self.sh.soft_stale.remove(c);
                     rows.push(vec![300, *c, 1, id]);
                 }
                 Ok(Message::HandshakeResponse(r)) => {
@@ -721,6 +725,8 @@ impl<'a> Ctx<'a> {
                     let chid = self.sh.intern(&r.challenge);
                     if chid != 0 {
                         self.sh.issued.entry(*c).or_default().push(chid);
+                        self.sh.outstanding.insert(*c, chid);
+                        self.sh.soft_stale.remove(c);
                     }
                     let cv = vt(&r.core_version);
                     let wv = vt(&r.wallet_version);
@@ -731,6 +737,9 @@ impl<'a> Ctx<'a> {
         }
         for c in &discs {
             rows.push(vec![301, *c]);
+            // the node closed the connection
+            self.sh.outstanding.remove(c);
+            self.sh.soft_stale.remove(c);
         }
         let mut accepted_on: Vec<u64> = vec![];
         for e in &events {
@@ -790,7 +799,11 @@ impl<'a> Ctx<'a> {
             }
         }
 
-        self.oracle(act, cur_conn, resp_info.as_ref(), &accepted_on, &peers, &addr, &gone);
+        for c in &gone {
+            self.sh.outstanding.remove(c);
+            self.sh.soft_stale.remove(c);
+        }
+        self.oracle(act, cur_conn, resp_info.as_ref(), &accepted_on, &peers, &addr, &gone, &outstanding_before, &stale_before);
         self.sh.prev_peers = peers;
         self.sh.prev_addr = addr;
         true
@@ -806,6 +819,8 @@ impl<'a> Ctx<'a> {
         peers: &[PeerObs],
         addr: &[(u64, u64)],
         gone: &[u64],
+        outstanding_before: &BTreeMap<u64, u64>,
+        stale_before: &BTreeMap<u64, u64>,
     ) {
         let k = self.expected.len() - 1;
         let prev = self.sh.prev_peers.clone();
@@ -815,32 +830,13 @@ impl<'a> Ctx<'a> {
         // (decided with the real `verify`, from what the node put on the wire, not from its state)
         let mut legit: Option<(u64, u64, u64)> = None; // (conn, key, challenge)
         let mut why_not = String::new();
+        let mut via_stale = false;
         if let Some((c, r)) = resp {
-            let issued_before: Vec<u64> = self
-                .sh
-                .issued
-                .get(c)
-                .cloned()
-                .unwrap_or_default();
-            // challenges issued during this very step do not count: the response was made before
-            let n_new = self
-                .expected
-                .last()
-                .map(|rows| {
-                    rows.iter()
-                        .filter(|r| r[0] == 300 && r[1] == *c && (r[2] == 1 || (r[2] == 2 && r[7] != 0)))
-                        .count()
-                })
-                .unwrap_or(0);
-            let outstanding = if issued_before.len() > n_new {
-                Some(issued_before[issued_before.len() - 1 - n_new])
-            } else {
-                None
-            };
+            let outstanding = outstanding_before.get(c).copied();
             let cv = vt(&r.core_version);
             let version_ok = cv != (0, 0, 0) && cv.0 == MY_CVER.0 as u64 && cv.1 == MY_CVER.1 as u64;
             match outstanding {
-                None => why_not = "unsolicited (no challenge was issued on this connection)".to_string(),
+                None => why_not = "unsolicited (no challenge is outstanding on this connection: none issued since it was (re)opened, or already accepted)".to_string(),
                 Some(ch) => {
                     let sig_ok = verify(&self.sh.bytes_of(ch), &r.signature, &r.public_key);
                     if !sig_ok {
@@ -854,12 +850,36 @@ impl<'a> Ctx<'a> {
                     }
                 }
             }
+            // listed class: the response answers a challenge of the PREVIOUS connection of this entry
+            // that no disconnect has invalidated (the connection was only re-opened)
+            if legit.is_none() {
+                if let Some(ch) = stale_before.get(c).copied() {
+                    if verify(&self.sh.bytes_of(ch), &r.signature, &r.public_key)
+                        && version_ok
+                        && !self.sh.accepted.contains(&ch)
+                    {
+                        legit = Some((*c, self.keys.id(&r.public_key), ch));
+                        via_stale = true;
+                    }
+                }
+            }
         }
         // --- (1) acceptance only for a legitimate response on that very connection ---
         for c in accepted_on {
             match legit {
                 Some((lc, key, ch)) if lc == *c => {
                     self.sh.accepted.insert(ch);
+                    if self.sh.outstanding.get(c) == Some(&ch) {
+                        self.sh.outstanding.remove(c);
+                    }
+                    self.sh.soft_stale.remove(c);
+                    if via_stale {
+                        self.known.push((
+                            "stale-challenge-survives-redial".to_string(),
+                            format!("step {} ({}): handshake accepted on connection {} under key {} for challenge {}, which the node issued on this entry BEFORE the connection was re-opened (handle_new_peer keeps challenge_for_peer of a static entry; no disconnect was processed in between)", k, act.label(), c, key, ch),
+                        ));
+                        self.tags.insert("stale-challenge");
+                    }
                     self.accepted_count += 1;
                     self.tags.insert("accepted");
                     let after = peers.iter().find(|p| p.idx == *c);
@@ -959,22 +979,21 @@ impl<'a> Ctx<'a> {
                 self.failures.push(format!("step {} ({}): address_to_peers[{}] = {} is not an entry holding that key", k, act.label(), kk, ix));
             }
         }
-        // listed: the purge drops the key of a live authenticated connection
-        if let Act::Purge = act {
-            for p in peers {
-                if p.status == 2 {
-                    if let Some(key) = p.pk {
-                        let had = prev_addr.iter().any(|(kk, _)| *kk == key);
-                        let has = addr.iter().any(|(kk, _)| *kk == key);
-                        if had && !has {
-                            self.known.push((
-                                "purge-unmaps-live-key".to_string(),
-                                format!("step {} (Purge): removing the stale entries {:?} dropped address_to_peers[{}] although connection {} is Connected under that key", k, gone, key, p.idx),
-                            ));
-                            self.tags.insert("purge-unmaps");
-                        }
-                    }
+        // --- (5) every entry that records a key is reachable through address_to_peers
+        //         (reconnection merge: fix f517868, purge: fix 88efef8) ---
+        for p in peers {
+            if let Some(key) = p.pk {
+                if !addr.iter().any(|(kk, _)| *kk == key) {
+                    self.failures.push(format!(
+                        "step {} ({}): connection {} (status {}) records key {} but address_to_peers has no entry for that key (entries removed in this step: {:?})",
+                        k, act.label(), p.idx, p.status, key, gone
+                    ));
                 }
+            }
+        }
+        if let Act::Purge = act {
+            if !gone.is_empty() {
+                self.tags.insert("purged");
             }
         }
         let _ = cur_conn;
@@ -1048,6 +1067,27 @@ fn alphabet() -> Vec<Act> {
         Act::Disc(2, true),
         // re-handshake on an incoming connection: new outstanding challenge
         Act::Chal { c: 2, x: Val::Fresh },
+    ]
+}
+
+/// the static (outgoing) connection 1: the Peer object survives disconnects and re-dials
+fn alphabet_static() -> Vec<Act> {
+    vec![
+        Act::New(1),
+        Act::Disc(1, true),
+        Act::Chal { c: 1, x: Val::Fresh },
+        // the server's answer to the challenge we sent along with our response
+        genuine(1, HONEST),
+        // the same message again (withheld by the attacker and delivered later / replayed)
+        Act::Replay { c: 1, nth: 0 },
+        // a response under another key, also over the outstanding challenge
+        genuine(1, 3),
+        // signature over the all-zero challenge (the honest key signs any challenge shown to it)
+        Act::Resp { c: 1, key: HONEST, over: Val::Zero, sig: SigKind::Valid, ver: VerKind::Same, echo: Val::Zero },
+        // incoming connection 2 for the zero-challenge case after an acceptance
+        Act::New(2),
+        genuine(2, HONEST),
+        Act::Resp { c: 2, key: HONEST, over: Val::Zero, sig: SigKind::Valid, ver: VerKind::Same, echo: Val::Fresh },
     ]
 }
 
@@ -1223,6 +1263,61 @@ fn scripted() -> Vec<(&'static str, Vec<Act>)> {
             Act::Purge,
         ],
     ));
+    // static peer: the server's answer is withheld, the connection drops, the node re-dials, the
+    // withheld answer is delivered on the new connection: it was made for the old connection's challenge
+    v.push((
+        "withheld-response-after-redial",
+        vec![
+            Act::New(1),
+            Act::Chal { c: 1, x: Val::Fresh },
+            Act::Disc(1, true),
+            Act::New(1),
+            genuine(1, HONEST), // over the challenge issued before the disconnect
+            Act::New(1),
+            Act::Chal { c: 1, x: Val::Fresh },
+            genuine(1, HONEST), // the proper one
+        ],
+    ));
+    // same, the old connection was closed by the node itself after a bad response
+    v.push((
+        "withheld-response-after-rejection",
+        vec![
+            Act::New(1),
+            Act::Chal { c: 1, x: Val::Fresh },
+            Act::Resp { c: 1, key: 3, over: Val::Issued(1, 0), sig: SigKind::Garbage, ver: VerKind::Same, echo: Val::Zero },
+            Act::New(1),
+            genuine(1, HONEST),
+        ],
+    ));
+    // listed: a challenge delivered while the static entry is not connected (message in flight after a
+    // disconnect) leaves a stored challenge that survives the re-dial
+    v.push((
+        "stale-challenge-survives-redial",
+        vec![
+            Act::New(1),
+            Act::Disc(1, true),
+            Act::Chal { c: 1, x: Val::Fresh },
+            Act::New(1),
+            genuine(1, HONEST),
+        ],
+    ));
+    // a signature over the all-zero challenge while nothing is outstanding: before any challenge
+    // (static 1), after an acceptance (2), and the node's own signature over zero (reflection of zero)
+    v.push((
+        "zero-challenge",
+        vec![
+            Act::New(1),
+            Act::Resp { c: 1, key: HONEST, over: Val::Zero, sig: SigKind::Valid, ver: VerKind::Same, echo: Val::Zero },
+            Act::New(2),
+            genuine(2, HONEST),
+            Act::Resp { c: 2, key: HONEST, over: Val::Zero, sig: SigKind::Valid, ver: VerKind::Same, echo: Val::Fresh },
+            Act::New(3),
+            Act::Chal { c: 3, x: Val::Zero },
+            Act::New(1),
+            Act::Resp { c: 1, key: ME, over: Val::Zero, sig: SigKind::Valid, ver: VerKind::Same, echo: Val::Zero },
+        ],
+    ));
+    // key change on an entry is rejected (was a panic before ae2aeaa)
     // handshake limiter: 100 messages per minute and connection
     let mut lim = vec![Act::Tick(100_000), Act::New(2)];
     for _ in 0..101 {
@@ -1285,7 +1380,6 @@ fn main() {
     let distinct: std::cell::RefCell<BTreeSet<u64>> = std::cell::RefCell::new(BTreeSet::new());
     let mut n_model: u64 = 0;
     let mut n_eval: u64 = 0;
-    let mut model_budget_exh: usize = if thorough { 12000 } else { 2500 };
 
     let record = |out: CaseOut, to_model: bool, summary: &mut Summary, coq_cases: &mut Vec<String>| {
         let i = summary.case_descs.len();
@@ -1341,9 +1435,13 @@ fn main() {
     }
 
     // ---- exhaustive interleavings (prefix-sharing depth-first search on the real node) ----
-    let alpha = alphabet();
-    let depth = if thorough { 6 } else { 5 };
-    {
+    let configs: Vec<(&'static str, Vec<Act>, usize, usize)> = vec![
+        ("incoming", alphabet(), if thorough { 6 } else { 5 }, if thorough { 12000 } else { 2500 }),
+        ("static", alphabet_static(), if thorough { 6 } else { 5 }, if thorough { 4000 } else { 1200 }),
+    ];
+    for (aname, alpha, depth, budget) in configs {
+        let mut model_budget_exh = budget;
+        let mut interesting_budget: usize = 300;
         let mut ctx = Ctx::new(&rt, &keys, 11);
         let mut path = vec![];
         let mut leaves: u64 = 0;
@@ -1352,12 +1450,24 @@ fn main() {
         let mut leaf = |c: &Ctx, p: &[Act]| {
             leaves += 1;
             n_eval += 1;
-            let interesting = !c.failures.is_empty();
+            let mut interesting = !c.failures.is_empty();
+            if interesting {
+                if interesting_budget == 0 {
+                    // still reported as an oracle failure below, just not added to the Coq cases
+                    interesting = false;
+                    let i = summary.case_descs.len();
+                    for f in &c.failures {
+                        summary.oracle_failure(i.saturating_sub(1), f, "{\"note\":\"further failing interleavings omitted\"}");
+                    }
+                } else {
+                    interesting_budget -= 1;
+                }
+            }
             let sampled = leaves % stride == 0 && model_budget_exh > 0;
             if sampled {
                 model_budget_exh -= 1;
             }
-            // every leaf is judged by the oracle; leaves with findings / failures and a
+            // every leaf is judged by the oracle; leaves with failures and a
             // deterministic sample are also compared with the model
             if interesting || sampled || !c.known.is_empty() && leaves % 7 == 0 {
                 record(finish(c, "exhaustive", p), true, &mut summary, &mut coq_cases);
@@ -1373,7 +1483,8 @@ fn main() {
         };
         dfs(&mut ctx, &alpha, depth, &mut path, &mut leaf);
         summary.notes.push(format!(
-            "exhaustive: all {} sequences of length {} over a {}-letter alphabet were run on the real node and judged by the oracle",
+            "exhaustive ({} alphabet): all {} sequences of length {} over {} letters were run on the real node and judged by the oracle",
+            aname,
             leaves,
             depth,
             alpha.len()
